@@ -10,6 +10,8 @@ LEAN_MODULES = ["KafVerif.Props.C41"]
 OBLIGATIONS = [
     "KafVerif.C41.lockset_drf",
     "KafVerif.C41.fields_guarded",
+    "KafVerif.C41.shared_elements_immutable_or_guarded",
+    "KafVerif.C41.shared_elements_nonvacuous",
     "KafVerif.C41.prepublication_ok",
     "KafVerif.C41.table_nonvacuous",
 ]
@@ -20,7 +22,10 @@ LEVEL_TEXT = ("Partial. Lean 4: on a trace model (threads, acquire/release, read
               "and acquire(m) by the second, i.e. ordered by happens-before (lockset_drf, all traces); the lockset table REGENERATED from "
               "pkg/storage/log.go, buffer.go, pkg/cache/segment_cache.go and the handler's logs map gives every field written after "
               "construction one mutex held exclusively at each write and at least shared at each read (fields_guarded, decide). "
-              "The data-race claim itself is tested: concurrent produce/fetch/flush/prefetch/cache stress under the Go race detector.")
+              "Every store that goes through an element shared via those fields (*IndexEntry of l.indexEntries, elements of the segment / "
+              "batch slices) is made under the owner's mutex (shared_elements_immutable_or_guarded, decide over the regenerated table). "
+              "The data-race claim itself is tested: concurrent produce/fetch/flush/prefetch/cache stress, including fetches of partitions "
+              "restored from S3 with foreign/damaged indexes, under the Go race detector.")
 LEVEL_NOTE = ("Not expressible in the model: atomics, sync.Cond, channels, WaitGroup/errgroup and goroutine-start edges, races in "
               "third-party packages; fields never written by a method are treated as immutable after construction; RestoreFromS3 is exempt "
               "as pre-publication code (its call sites are checked to precede publication). Trusted: Lean kernel, the go/ast lockset pass, "
@@ -31,6 +36,7 @@ ASSUMPTIONS = [
     "a field no method writes is immutable after construction (constructors run before the value is shared)",
     "function literals are analysed with an empty lockset (they may run on another goroutine)",
     "PartitionLog.RestoreFromS3 runs before the log is published (checked at every call site found)",
+    "shared-element stores are found by syntactic type inference (go/ast, no go/types): a store whose lvalue type cannot be inferred is not listed; reads of shared elements are not listed",
 ]
 
 GEN = os.path.join(lib.LEAN, "KafVerif", "Gen", "C41Locksets.lean")
@@ -50,6 +56,7 @@ def _binary(ck):
 
 def parse_extract(out):
     mutexes, fields, accesses, prepub_bad, sites, done = {}, [], [], None, 0, False
+    elemwrites, elemtypes = [], []
     for l in out.split("\n"):
         f = l.split()
         if not f:
@@ -63,6 +70,12 @@ def parse_extract(out):
             accesses.append({"type": f[1], "field": f[2], "write": f[3] == "w", "func": f[4], "line": int(f[5]),
                              "locks": [] if kv["locks"] == "-" else kv["locks"].split(","),
                              "rlocks": [] if kv["rlocks"] == "-" else kv["rlocks"].split(","), "phase": kv["phase"]})
+        elif f[0] == "elemwrite":
+            kv = dict(x.split("=", 1) for x in f[5:])
+            elemwrites.append({"owner": "" if f[1] == "-" else f[1], "elem": f[2], "func": f[3], "line": int(f[4]),
+                               "locks": [] if kv["locks"] == "-" else kv["locks"].split(","), "phase": kv["phase"]})
+        elif f[0] == "elemtype":
+            elemtypes.append(f[2])
         elif f[0] == "prepub":
             kv = dict(x.split("=", 1) for x in f[2:])
             sites, prepub_bad = int(kv["sites"]), int(kv["bad"])
@@ -72,7 +85,7 @@ def parse_extract(out):
             raise RuntimeError("lockset extractor: " + l)
     if not done or prepub_bad is None or not fields or not accesses:
         raise RuntimeError("lockset extractor output incomplete: " + out[-400:])
-    return mutexes, fields, accesses, sites, prepub_bad
+    return mutexes, fields, accesses, sites, prepub_bad, elemwrites, elemtypes
 
 
 def generate(ck):
@@ -82,7 +95,7 @@ def generate(ck):
     rc, out, err = ck.run_bin(binary, args=["extract", lib.REPO])
     if rc != 0:
         raise RuntimeError("lockset extractor failed: " + out[-500:] + err[-500:])
-    mutexes, fields, accesses, sites, prepub_bad = parse_extract(out)
+    mutexes, fields, accesses, sites, prepub_bad, elemwrites, elemtypes = parse_extract(out)
     ck._c41 = {"fields": fields, "accesses": accesses}
     mid = {t: {m: i for i, m in enumerate(sorted(ms))} for t, ms in mutexes.items()}
     src = ("-- REGENERATED by checks/C41.py from pkg/storage/{log,buffer}.go, pkg/cache/segment_cache.go, cmd/broker (handler.logs)\n"
@@ -100,6 +113,12 @@ def generate(ck):
             ", ".join(str(mid[t][m]) for m in a["locks"]), ", ".join(str(mid[t][m]) for m in a["rlocks"])) for a in acc)
         rows.append('  { owner := "%s", name := "%s", mutable := %s, accesses := [\n%s] }' % (t, f, "true" if mutable else "false", arows))
     src += "def fields : List Field := [\n" + ",\n".join(rows) + "]\n"
+    ew = [w for w in elemwrites if w["phase"] == "run"]
+    src += "-- shared element types (struct types held in slices / maps / by pointer by the analysed types): %s\n" % ", ".join(elemtypes)
+    src += "/-- stores whose lvalue goes through a shared element and whose root is not a fresh local -/\n"
+    src += "def sharedElemWrites : List ElemWrite := [\n" + ",\n".join(
+        '  { owner := "%s", elem := "%s", func := "%s", line := %d, locks := [%s] }' % (
+            w["owner"], w["elem"], w["func"], w["line"], ", ".join(str(mid[w["owner"]][m]) for m in w["locks"])) for w in ew) + "]\n"
     src += "/-- call sites of pre-publication methods (RestoreFromS3) that are NOT on a freshly constructed, unpublished log: %d of %d -/\n" % (prepub_bad, sites)
     src += "def prepubViolations : Nat := %d\nend KafVerif.Gen.C41\n" % (prepub_bad if sites > 0 else 0)
     old = open(GEN).read() if os.path.exists(GEN) else None
@@ -127,6 +146,13 @@ def generate(ck):
             bad.append("%s.%s: no common mutex; e.g. %s in %s (line %d) holds %s" % (
                 t, f, "write" if weakest[0]["write"] else "read", weakest[0]["func"], weakest[0]["line"],
                 ",".join(weakest[0]["rlocks"]) or "nothing"))
+    for w in ew:
+        same = [x for x in ew if x["elem"] == w["elem"]]
+        if not w["owner"] or not w["locks"] or any(x["owner"] != w["owner"] or not (set(x["locks"]) & set(w["locks"])) for x in same):
+            bad.append("store through shared %s element in %s (line %d) holds %s: the elements are used by readers after the owner's "
+                       "mutex is released" % (w["elem"], w["func"], w["line"], ",".join(w["locks"]) or "nothing"))
+    d["shared_elem_types"] = len(elemtypes)
+    d["shared_elem_writes"] = len(ew)
     ck._c41["unguarded"] = bad
 
 
@@ -165,8 +191,10 @@ def run(ck):
     for b in ck._c41.get("unguarded", []):
         ck.notes.append("lockset table: " + b)
     ck.cov["rule"] = ("stress runs = (seed, duration, partitions, goroutines per role) under the race detector: producers, fetchers, flusher, "
-                      "watermark readers per partition + cache hammer, S3 with injected failures; a run is non-trivial when appends, reads, "
-                      "flushes and S3 failures all occurred; distinct = distinct parameter tuples (schedules are not reproducible)")
+                      "watermark readers per partition + cache hammer, S3 with injected failures, plus rounds of 2-4 simultaneous fetchers on "
+                      "partitions freshly restored from S3 objects with foreign/damaged sparse indexes (positions 0/1/31 inside the header, "
+                      "out-of-order, in/after the footer); a run is non-trivial when appends, reads, flushes, S3 failures and restored rounds "
+                      "with both range reads and full downloads all occurred; distinct = distinct parameter tuples (schedules are not reproducible)")
     plans = [(1, 2500, 2, 3), (2, 2500, 1, 4), (3, 2000, 3, 2)] if ck.quick() else \
         [(i + 1, 6000, 1 + i % 3, 2 + i % 4) for i in range(12)]
     for (k, millis, parts, width) in plans:
@@ -176,8 +204,19 @@ def run(ck):
         stats = [int(x) for x in m.groups()] if m else [0] * 7
         for name, v in zip(["appends", "reads", "flushes", "op_errors", "panics", "s3_uploads", "s3_failures"], stats):
             ck.count(name, v)
-        ck.case(("stress", seed, millis, parts, width), nontrivial=bool(m) and stats[0] > 0 and stats[1] > 0 and stats[2] > 0 and stats[6] > 0,
-                sample={"stress": [seed, millis, parts, width], "result": out.strip()[-200:]})
+        mr = re.search(r"restored rounds=(\d+) reads=(\d+) errors=(\d+) panics=(\d+) range_reads=(\d+) full_reads=(\d+) restore_errors=(\d+) mismatch=(\d+)", out)
+        rstats = [int(x) for x in mr.groups()] if mr else [0] * 8
+        for name, v in zip(["restored_rounds", "restored_reads", "restored_read_errors", "restored_read_panics", "restored_range_reads",
+                            "restored_full_reads", "restored_restore_errors", "restored_setup_mismatch"], rstats):
+            ck.count(name, v)
+        if mr and rstats[3] > 0:
+            ck.notes.append("reads of restored segments with damaged indexes panicked %d times (recovered per read; not a C41 alarm): %s"
+                            % (rstats[3], (re.findall(r"restored-read panicked.*", err) or ["?"])[0][:200]))
+        # restored_ok: the damaged-index partitions were restored and read on both the range-read and the full-download/cached path
+        restored_ok = bool(mr) and rstats[0] > 0 and rstats[1] > 0 and rstats[4] > 0 and rstats[5] > 0
+        ck.case(("stress", seed, millis, parts, width),
+                nontrivial=bool(m) and stats[0] > 0 and stats[1] > 0 and stats[2] > 0 and stats[6] > 0 and restored_ok,
+                sample={"stress": [seed, millis, parts, width], "result": out.strip()[-400:]})
         ck.cov["traces_validated_against_impl"] += 1
         races = RACE_RE.findall(err)
         ck.count("race_reports", len(races))
